@@ -35,7 +35,10 @@ LIMITS = ["tolerated by the property: convexity with bounds but without monotoni
           "float rounding outside the model (float64: tolerance 1e-9; float32 cases: 1e-5 * max(1, |v|) in the Coq "
           "comparison and in the predicates; float32 cases avoid the 'far' and squeeze kernel classes)",
           "the guard constant 0.001 of _squeeze_by_scaling is bracketed by deltas 2^-10 and 2^-9 only: a change of "
-          "the constant within (0.00098, 0.00195) is not seen by the generated cases"]
+          "the constant within (0.00098, 0.00195) is not seen by the generated cases",
+          "cyclic calibrators (is_cyclic=True, hence monotonicity and convexity none) are run through the LAYER's "
+          "constraint; the model sees them as an ordinary configuration with one height and one length less (the "
+          "closing keypoint output equals the first by construction of the layer, C05)"]
 SHARD = 120
 
 BCT = ["NONE", "BOUND", "CLAMPED"]
@@ -122,9 +125,27 @@ def gen_descs(ctx):
         # a few 2^-12 on top of the 1/8 grid: exact in float32, not in float16 / bfloat16
         d["W"] = [[v + rng.choice([0, 0, 1, -1, 3, -5]) * 2.0 ** -12 for v in row] for row in W]
     out.append(d)
+  # cyclic calibrators (is_cyclic=True: monotonicity and convexity must be none; the kernel has one row less than
+  # there are keypoints and the last keypoint output equals the first): the layer's constraint on random kernels
+  for _ in range(ctx.n(24, 400)):
+    nk = rng.randint(3, 7)
+    lengths = [rng.choice([0.5, 1.0, 1.0, 2.0, 3.0]) for _ in range(nk - 1)]
+    bmode = rng.choice(["min", "max", "both", "both", "none"])
+    a = tfimpl.dy(rng, -4, 4)
+    omin = a if bmode in ("min", "both") else None
+    omax = a + rng.choice([0.0, 0.5, 1.0, 4.0]) if bmode in ("max", "both") else None
+    omin, omax = tfimpl.zero_bound(rng, omin, omax)
+    units = rng.choice([1, 1, 2, 3])
+    klass = rng.choice(["random", "far", "ties"])
+    W = [[(tfimpl.dy(rng, -64, 64) if klass == "far" else float(rng.choice([-1, 0, 0, 1])) if klass == "ties"
+           else tfimpl.dy(rng)) for _ in range(units)] for _ in range(nk - 1)]
+    out.append(dict(kind="proj", cyclic=True, mono=0, conv=0, lengths=lengths, omin=omin, omax=omax, clamp_min=False,
+                    clamp_max=False, units=units, iters=rng.choice([0, 1, 8]), W=W, wclass=klass + "_cyclic",
+                    via_layer=True))
   for _ in range(ctx.n(20, 200)):
     lo = rng.choice([None, tfimpl.dy(rng, -2, 2)])
     hi = rng.choice([None, (lo if lo is not None else 0.0) + rng.choice([0.0, 1.0, 3.0])])
+    lo, hi = tfimpl.zero_bound(rng, lo, hi, p=0.4)   # a bound that is exactly 0.0 (falsy but set)
     d = dict(kind="naive", lo=lo, hi=hi, w=[tfimpl.dy(rng, -8, 8) for _ in range(rng.randint(1, 4))])
     if rng.random() < 0.1:
       d["dtype"] = "float32"
@@ -432,7 +453,8 @@ def eval_cases(ctx, descs):
       layer = tfl.layers.PWLCalibration(
           input_keypoints=kp, units=d["units"], output_min=d["omin"], output_max=d["omax"],
           clamp_min=d["clamp_min"], clamp_max=d["clamp_max"], monotonicity=spell[d["mono"]],
-          convexity=cspell[d["conv"]], num_projection_iterations=d["iters"], dtype="float32" if f32 else "float64")
+          convexity=cspell[d["conv"]], num_projection_iterations=d["iters"], is_cyclic=bool(d.get("cyclic")),
+          dtype="float32" if f32 else "float64")
       layer.build((None, d["units"]))
       con = layer.kernel.constraint
       if layer.kernel.dtype.base_dtype != tfdt:
@@ -464,7 +486,9 @@ def eval_cases(ctx, descs):
       ch = np.abs(R - W).max()
       if ch > rel * max(1.0, np.abs(W).max()):
         fails.append("feasible: a kernel satisfying every configured constraint is changed by %r" % ch)
-    cfg = coq_cfg(d, omin_v, omax_v, cmin, cmax)
+    # a cyclic kernel has nk - 1 rows, i.e. nk - 2 heights: the model gets as many lengths as heights (lengths only
+    # matter for convexity, which a cyclic calibrator cannot have)
+    cfg = coq_cfg(dict(d, lengths=d["lengths"][:-1]) if d.get("cyclic") else d, omin_v, omax_v, cmin, cmax)
     coq = wrap("CProj %s %s %s %s" % (cfg, cnat(d["units"]), cqm(d_in["W"]), cqm([[float(v) for v in r] for r in R])))
     moved = np.abs(R - W).max() > 1e-12
     klass = "m%d_c%d_%s%s_%s%s" % (d["mono"], d["conv"], "b" if d["omin"] is not None else "", "B" if d["omax"] is not None else "",
